@@ -7,6 +7,7 @@ import (
 	"fmt"
 	"os"
 	"reflect"
+	"runtime"
 	"strconv"
 	"strings"
 	"time"
@@ -334,6 +335,13 @@ func EvalText(text string, data map[string]interface{}) EvalOut {
 // stalled interval is not held against f. A real hang (busy loop or deadlock)
 // still accumulates d of on-time ticks. The goroutine is abandoned on timeout
 // (the caller reports and stops).
+// RunawayBytes is the live-heap growth during one watched call that counts as "does not return".
+const RunawayBytes = 3 << 30
+
+// Runaway is set when a watched call was given up because of its memory growth: the goroutine is still
+// running and the process should end soon.
+var Runaway bool
+
 func WithTimeout(d time.Duration, f func()) bool {
 	done := make(chan struct{})
 	go func() {
@@ -342,6 +350,9 @@ func WithTimeout(d time.Duration, f func()) bool {
 	}()
 	const tick = 100 * time.Millisecond
 	var good time.Duration
+	var ms runtime.MemStats
+	runtime.ReadMemStats(&ms)
+	base, ticks := ms.HeapAlloc, 0
 	for good < d {
 		t0 := time.Now()
 		select {
@@ -351,6 +362,15 @@ func WithTimeout(d time.Duration, f func()) bool {
 		}
 		if el := time.Since(t0); el < 3*tick {
 			good += el
+		}
+		// a call that keeps allocating without returning stalls the whole process long before the time limit is
+		// observed: RunawayBytes of live heap gathered during one call end the wait at once
+		if ticks++; ticks%5 == 0 {
+			runtime.ReadMemStats(&ms)
+			if ms.HeapAlloc > base && ms.HeapAlloc-base > RunawayBytes {
+				Runaway = true
+				return false
+			}
 		}
 	}
 	select {
